@@ -65,7 +65,11 @@ def elec_case(rng, N=None, n=None, rho_kind=None, scale=0.05):
 
 def make_traj(c, integ="exp", cls="TrajectorySH", **opts):
     import mudslide
-    t = getattr(mudslide, cls)(ShellModel(c["N"], c["mass"]), np.zeros(c["n"]), np.zeros(c["n"]), np.array(c["rho"]),
+    shell = ShellModel(c["N"], c["mass"])
+    if c.get("int_mass"):
+        # integer-VALUED masses handed over as an int64 array (a user-defined model may do that)
+        shell = ShellModel(c["N"], np.asarray(c["mass"]).astype(np.int64), dtype=None)
+    t = getattr(mudslide, cls)(shell, np.zeros(c["n"]), np.zeros(c["n"]), np.array(c["rho"]),
                                state0=0, dt=c["dt"], electronic_integration=integ, **opts)
     t.velocity = np.array(c["v1"], dtype=np.float64)
     t.last_velocity = np.array(c["v0"], dtype=np.float64)
